@@ -92,6 +92,12 @@ def check(repo, res, tier):
                        'update_allocation called only by the scheduler with the proposed machine')
     res.rule('C17.S3', 'scheduler passes (t, schedule[t]) to the cluster; the cluster runs t on that machine')
     s4(repo, res)
+    from . import c02
+    from .common import borrow
+    res.rule('C17.S5', 'adopted C02.P2: a machine leaves a busy pool only by its own identity (the finishing task\'s '
+                       'machine, not "the oldest entry") -- else the planned machine of a waiting task is handed out '
+                       'while ingest still runs on it')
+    borrow(repo, res, tier, c02, {'C02.P2'}, 'C17.S5')
     f = repo.func('DynamicSchedulingFromPlan.run')
     fr = Frame(f)
     res.analysed(f, 0)
